@@ -63,7 +63,7 @@ def _tag(cp: Any) -> Optional[str]:
 
 def check_hierarchy(db: Any, prefix: str, types: Sequence[str], parents: Sequence[Sequence[int]],
                     local: Sequence[Sequence[Dict[str, Any]]], params: Sequence[str],
-                    stats: Optional[Part] = None) -> List[Tuple[str, str]]:
+                    stats: Optional[Part] = None, variant: str = "flat") -> List[Tuple[str, str]]:
     """All oracle comparisons for one hierarchy of a loaded database -> [(finding key, detail)]."""
     out: List[Tuple[str, str]] = []
     lnames = ref.layer_names(types, prefix)
@@ -104,6 +104,13 @@ def check_hierarchy(db: Any, prefix: str, types: Sequence[str], parents: Sequenc
                 out.append(("C15/view/duplicate-key", f"{where}: two entries for {key}: {observed[key]} and {tag}"))
                 broken = True
                 continue
+            if getattr(cp, "prot_stack_snref", None) != inst.get("pstack"):
+                out.append(("C15/view/prot-stack-qualifier-changed",
+                            f"{where}: instance {tag} has PROT-STACK-SNREF {inst.get('pstack')!r}, loaded as {getattr(cp, 'prot_stack_snref', None)!r}"))
+            if inst.get("pstack"):
+                cnt("view_entries_with_prot_stack_qualifier")
+                if inst["proto"]:
+                    cnt("view_entries_with_both_qualifiers")
             observed[key] = tag
             cps[tag] = cp
         for key in sorted(set(observed) | set(want[i]), key=repr):
@@ -176,10 +183,13 @@ def check_hierarchy(db: Any, prefix: str, types: Sequence[str], parents: Sequenc
         for tag, cp in cps.items():
             inst = by_tag[tag]
             if ref.is_complex(inst["param"]):
-                for k, sub in enumerate(ref.sub_names(inst["param"]) + [UNKNOWN_SUB]):
+                slot = {sub: k for k, sub in enumerate(ref.sub_names(inst["param"], variant))}
+                for sub in ref.simple_sub_names(inst["param"], variant) + [UNKNOWN_SUB]:
                     cnt("value_reads")
-                    exp = ref.effective_subvalue(inst, sub)
-                    omitted = sub != UNKNOWN_SUB and inst["subs"][k] is None
+                    exp = ref.effective_subvalue(inst, sub, variant)
+                    omitted = sub != UNKNOWN_SUB and inst["subs"][slot[sub]] is None
+                    if variant != "flat":
+                        cnt("subvalue_reads_on_nested_specification")
                     try:
                         with warnings.catch_warnings():
                             warnings.simplefilter("ignore")
@@ -213,7 +223,7 @@ def check_hierarchy(db: Any, prefix: str, types: Sequence[str], parents: Sequenc
                     cnt("defaults_used")
         # ---------------- typed accessors ----------------
         for acc, (param, sub, conv) in ref.ACCESSORS.items():
-            if param not in params:
+            if param not in params or acc == "get_can_fd_baudrate":
                 continue
             fn = getattr(layer, acc)
             for q in ref.PROTOS:
@@ -224,19 +234,10 @@ def check_hierarchy(db: Any, prefix: str, types: Sequence[str], parents: Sequenc
                 if (base_tag, sub) in bad_reads:
                     cnt("accessor_calls_skipped_value_read_already_reported")
                     continue  # the (sub-)value read underneath is already reported: one root cause, one key
-                kind, exp = ref.accessor_expectation(acc, inst)
+                kind, exp = ref.accessor_expectation(acc, inst, variant)
                 omitted = False
                 if inst is not None:
-                    omitted = (inst["subs"][ref.sub_names(param).index(sub)] is None) if sub else (inst.get("value") is None)
-                if acc == "get_can_fd_baudrate" and inst is not None:
-                    # the accessor is conditional on CAN-FD being in use: demanded only when the other two parameters
-                    # resolve for the same query and say so by their effective values (ours always do)
-                    rx = found.get(("CP_UniqueRespIdTable", q), "?")
-                    fd = found.get(("CP_CANFDTxMaxDataLength", q), "?")
-                    if rx not in (None, "?") and fd not in (None, "?") and (rx, "CP_CanPhysReqId") not in bad_reads \
-                            and (fd, None) not in bad_reads:
-                        kind, exp = "must", ref.numeric("int", ref.effective_value(inst))
-                        omitted = omitted or by_tag[fd].get("value") is None or by_tag[rx]["subs"][0] is None
+                    omitted = (inst["subs"][ref.sub_names(param, variant).index(sub)] is None) if sub else (inst.get("value") is None)
                 if kind == "dontcare":
                     cnt("accessor_calls_dontcare")
                     continue
@@ -265,6 +266,47 @@ def check_hierarchy(db: Any, prefix: str, types: Sequence[str], parents: Sequenc
                     mode = "wrong-number"
                 out.append((f"C15/accessor/{acc}/{mode}",
                             f"{where}: {acc}(protocol={q}) = {got!r}, expected {exp!r} from instance {base_tag} ({_show(inst)})"))
+        # ---------------- the CAN / CAN-FD gate, per protocol ----------------
+        gate = ("CP_UniqueRespIdTable", "CP_CANFDTxMaxDataLength", "CP_CANFDBaudrate")
+        if all(g in params for g in gate):
+            for q in ref.PROTOS:
+                tg = [found.get((g, q), "?") for g in gate]
+                if "?" in tg:
+                    continue
+                if (tg[0], "CP_CanPhysReqId") in bad_reads or (tg[1], None) in bad_reads or (tg[2], None) in bad_reads:
+                    cnt("accessor_calls_skipped_value_read_already_reported")
+                    continue
+                insts = [None if x is None else by_tag[x] for x in tg]
+                exp_all = ref.can_fd_expectation(*insts)
+                omitted = any(i is not None and i.get("value") is None for i in insts[1:])
+                if insts[1] is not None:
+                    cnt("can_fd_gate_" + ("fd" if exp_all["uses_can_fd"] else "classic" if insts[0] is not None else "no_can"))
+                for acc in ("uses_can", "uses_can_fd", "get_can_fd_baudrate"):
+                    exp = exp_all[acc]
+                    cnt("accessor_calls")
+                    try:
+                        with warnings.catch_warnings():
+                            warnings.simplefilter("ignore")
+                            got = getattr(layer, acc)(protocol=None if q is None else prefix + q)
+                    except Exception as e:  # noqa: BLE001
+                        out.append((f"C15/accessor/{acc}/raises-{type(e).__name__}/{'omitted-value' if omitted else 'given-value'}",
+                                    f"{where}: {acc}(protocol={q}): {type(e).__name__}: {e}; resolved {tg}"))
+                        continue
+                    if got == exp and type(got) is type(exp):
+                        if exp not in (None, False):
+                            cnt("accessor_numbers_confirmed")
+                        continue
+                    if acc != "get_can_fd_baudrate":
+                        mode = "wrong-answer-for-protocol"
+                    elif exp is None:
+                        mode = "number-although-can-fd-not-in-use-for-protocol"
+                    elif got is None:
+                        mode = "default-ignored" if omitted else "none-although-can-fd-in-use-for-protocol"
+                    else:
+                        mode = "wrong-number"
+                    out.append((f"C15/accessor/{acc}/{mode}",
+                                f"{where}: {acc}(protocol={q}) = {got!r}, expected {exp!r}; resolved for this query: table {tg[0]}, "
+                                f"frame size {tg[1]} ({_show(insts[1])}), baud rate {tg[2]} ({_show(insts[2])})"))
     return out
 
 
@@ -278,9 +320,9 @@ def _show(inst: Optional[Dict[str, Any]]) -> str:
 # units
 # ---------------------------------------------------------------------------------------------
 def case_of(types: Sequence[str], parents: Sequence[Sequence[int]], local: Sequence[Sequence[Dict[str, Any]]],
-            params: Sequence[str], reverse: bool = False) -> Dict[str, Any]:
+            params: Sequence[str], reverse: bool = False, variant: str = "flat") -> Dict[str, Any]:
     return {"types": list(types), "parents": [list(p) for p in parents], "local": [list(l) for l in local],
-            "params": list(params), "reverse": bool(reverse)}
+            "params": list(params), "reverse": bool(reverse), "variant": variant}
 
 
 def run_batch(part: Part, batch: List[Dict[str, Any]]) -> None:
@@ -297,7 +339,7 @@ def run_batch(part: Part, batch: List[Dict[str, Any]]) -> None:
         return
     for k, c in enumerate(batch):
         part.count("evaluations")
-        for key, detail in check_hierarchy(db, f"h{k}_", c["types"], c["parents"], c["local"], c["params"], part):
+        for key, detail in check_hierarchy(db, f"h{k}_", c["types"], c["parents"], c["local"], c["params"], part, c.get("variant", "flat")):
             part.violation(key, c, detail)
     part.count("databases")
 
@@ -309,16 +351,17 @@ def _flush(part: Part, buf: List[Dict[str, Any]], force: bool = False) -> None:
 
 
 def configs_for(types: Sequence[str], parents: Sequence[Sequence[int]], placement: Any, params: Sequence[str],
-                placement2: Any = None, reversals: bool = False, orders: bool = True) -> List[Dict[str, Any]]:
+                placement2: Any = None, reversals: bool = False, orders: bool = True, params2: Any = None,
+                variant: str = "flat") -> List[Dict[str, Any]]:
     """The database elements of one placement vector: both document orders of generic+P1 pairs (if there is such a pair)
     and, if asked for, both orders of the PARENT-REFs of layers with several parents."""
     out = []
     pairs = orders and (any(len(pl) > 1 for pl in placement) or (placement2 is not None and any(len(pl) > 1 for pl in placement2)))
     multi = reversals and any(len(p) > 1 for p in parents)
     for pfirst in ((False, True) if pairs else (False,)):
-        local = ref.make_instances(placement, params, pfirst, placement2)
+        local = ref.make_instances(placement, params, pfirst, placement2, params2, variant)
         for rev in ((False, True) if multi else (False,)):
-            out.append(case_of(types, parents, local, params, rev))
+            out.append(case_of(types, parents, local, params, rev, variant))
     return out
 
 
@@ -331,27 +374,38 @@ def hier(n: int) -> List[ref.Hierarchy]:
     return _H[n]
 
 
+MODE_LETTER = "goGO"  # given, omitted, given + PROT-STACK-SNREF, omitted + PROT-STACK-SNREF
+GATE = ("CP_UniqueRespIdTable", "CP_CANFDTxMaxDataLength", "CP_CANFDBaudrate")
+CROSS_SETS = {
+    # name: (parameters, the ones placed by the second vector)
+    "core": (ref.CORE, ("CP_UniqueRespIdTable",)),
+    "fd": (GATE, ("CP_CANFDTxMaxDataLength",)),
+}
+
+
 def unit(u: Tuple[Any, ...]) -> Part:
     part = Part()
     kind = u[0]
     buf: List[Dict[str, Any]] = []
-    if kind in ("core", "all"):
-        _, n, hidx, lead, full = u
+    if kind == "aligned":
+        # every parameter of the set at the same placement vector
+        _, pset, n, hidx, lead, full, variant, modes = u
         types, parents = hier(n)[hidx]
-        params = ref.PARAM_SETS[kind]
+        params = ref.PARAM_SETS[pset]
         first = [i for i, t in enumerate(types) if t != ref.ESD][0]
-        per = ref.layer_placements(2, not full)
-        for placement in ref.placements(types, 2, not full):
+        per = ref.layer_placements(modes, not full)
+        for placement in ref.placements(types, modes, not full):
             if placement[first] != per[lead]:
                 continue
             part.count("placement_vectors")
+            part.count(f"vectors_{pset}_{variant}" + ("" if modes == 2 else "_stack"))
             for pl in placement:
-                part.add("placement_kinds", ref.KIND_NAME[tuple(q for q, _ in pl)] + "/" + "".join("go"[m] for _, m in pl))
-            for c in configs_for(types, parents, placement, params, None, full, full):
-                buf.append(c)
+                part.add("placement_kinds", ref.KIND_NAME[tuple(q for q, _ in pl)] + "/" + "".join(MODE_LETTER[m] for _, m in pl))
+            buf.extend(configs_for(types, parents, placement, params, None, full, full, None, variant))
             _flush(part, buf)
     elif kind == "cross":
-        _, n, hidx, lead = u
+        _, n, hidx, lead, cset = u
+        params, params2 = CROSS_SETS[cset]
         types, parents = hier(n)[hidx]
         first = [i for i, t in enumerate(types) if t != ref.ESD][0]
         per = ref.layer_placements(2)
@@ -360,53 +414,83 @@ def unit(u: Tuple[Any, ...]) -> Part:
                 continue
             for p2 in ref.placements(types, 2):
                 part.count("placement_vectors")
-                part.count("cross_vectors")
-                buf.extend(configs_for(types, parents, p1, ref.CORE, p2))
+                part.count(f"cross_vectors_{cset}")
+                buf.extend(configs_for(types, parents, p1, params, p2, False, True, params2))
                 _flush(part, buf)
     elif kind == "subsets":
-        # one layer, one instance of the complex parameter, every subset of omitted sub-values; one instance of every
-        # simple parameter given / omitted
-        _, ltype = u
+        # one layer, one instance of the complex parameter, every subset of omitted slots; one instance of every simple
+        # parameter given / omitted
+        _, ltype, variant = u
         cx = "CP_UniqueRespIdTable"
-        nsub = len(ref.sub_names(cx))
+        subs = ref.complex_subs(cx, variant)
         for proto in ref.PROTOS:
-            for mask in range(2 ** nsub):
+            for mask in range(2 ** len(subs)):
                 for simple_omitted in (False, True):
-                    local = [[]]
+                    local: List[List[Dict[str, Any]]] = [[]]
                     for pidx, param in enumerate(ref.ALL):
                         inst: Dict[str, Any] = {"layer": 0, "param": param, "proto": proto, "tag": f"i0.{pidx}.{proto or 'G'}"}
                         if ref.is_complex(param):
-                            inst["subs"] = [None if mask >> k & 1 else str(ref.instance_value(0, proto, pidx, k + 1)) for k in range(nsub)]
-                        elif simple_omitted:
-                            inst["value"] = None
+                            slots = ref.complex_values(0, proto, pidx, subs, None)
+                            for k in range(len(subs)):
+                                if mask >> k & 1:
+                                    if isinstance(slots[k], list):
+                                        slots[k][0] = None
+                                    else:
+                                        slots[k] = None
+                            inst["subs"] = slots
                         else:
-                            v = str(ref.instance_value(0, proto, pidx))
-                            inst["value"] = f"CANFD TX_DL={v}" if ref.SIMPLE[param].get("text") else v
+                            inst["value"] = None if simple_omitted else ref.simple_text(param, 0, proto, pidx)
                         local[0].append(inst)
                     part.count("placement_vectors")
                     part.count("subset_vectors")
-                    part.add("omitted_subvalue_sets", mask)
-                    buf.append(case_of((ltype,), ((),), local, ref.ALL))
+                    part.add("omitted_subvalue_sets", (variant, mask))
+                    buf.append(case_of((ltype,), ((),), local, ref.ALL, False, variant))
                     _flush(part, buf)
     _flush(part, buf, force=True)
     return part
 
 
-def plan(quick: bool) -> Tuple[List[Tuple[Any, ...]], Dict[str, Any]]:
-    bounds = {"core_layers": 3 if quick else 4, "all_layers": 2 if quick else 3, "cross_layers": 1 if quick else 2}
+def plan(quick: bool) -> Tuple[List[Tuple[Any, ...]], Dict[str, Any], int]:
+    """-> (units, bounds, number of placement vectors the units must enumerate)"""
+    bounds = {"core_layers": 3 if quick else 4, "all_layers": 2 if quick else 3, "cross_layers": 1 if quick else 2,
+              "fd_cross_layers": 1 if quick else 2, "stack_layers_all_four_modes": 2, "stack_layers_given_only": 2 if quick else 3,
+              "nested_core_layers": 2 if quick else 3, "nested_all_layers": 1 if quick else 2}
     units: List[Tuple[Any, ...]] = []
-    nper = len(ref.layer_placements(2))
-    for n in range(1, bounds["core_layers"] + 1):
-        for hidx in range(len(hier(n))):
-            units.extend(("core", n, hidx, lead, n <= FULL_LAYERS) for lead in range(len(ref.layer_placements(2, n > FULL_LAYERS))))
-    for n in range(1, bounds["all_layers"] + 1):
-        for hidx in range(len(hier(n))):
-            units.extend(("all", n, hidx, lead, True) for lead in range(nper))
-    for n in range(1, bounds["cross_layers"] + 1):
-        for hidx in range(len(hier(n))):
-            units.extend(("cross", n, hidx, lead) for lead in range(nper))
-    units.extend(("subsets", t) for t in ref.TYPES if t != ref.ESD)
-    return units, bounds
+    expect = 0
+
+    def aligned(pset: str, lo: int, hi: int, variant: str = "flat", modes: Any = 2) -> None:
+        nonlocal expect
+        for n in range(lo, hi + 1):
+            full = n <= FULL_LAYERS
+            for hidx, h in enumerate(hier(n)):
+                units.extend(("aligned", pset, n, hidx, lead, full, variant, modes)
+                             for lead in range(len(ref.layer_placements(modes, not full))))
+                expect += ref.n_placements(h[0], modes, not full)
+
+    def cross(cset: str, hi: int) -> None:
+        nonlocal expect
+        for n in range(1, hi + 1):
+            for hidx, h in enumerate(hier(n)):
+                units.extend(("cross", n, hidx, lead, cset) for lead in range(len(ref.layer_placements(2))))
+                expect += ref.n_placements(h[0]) ** 2
+
+    aligned("core", 1, bounds["core_layers"])
+    aligned("all", 1, bounds["all_layers"])
+    cross("core", bounds["cross_layers"])
+    cross("fd", bounds["fd_cross_layers"])
+    # PROT-STACK-SNREF alone and together with PROTOCOL-SNREF
+    aligned("core", 1, bounds["stack_layers_all_four_modes"], "flat", 4)
+    aligned("core", bounds["stack_layers_all_four_modes"] + 1, bounds["stack_layers_given_only"], "flat", (ref.M_GIVEN, ref.M_STACK))
+    # specifications of the complex parameter with a nested COMPLEX-COMPARAM (first / later)
+    for variant in ref.VARIANTS:
+        if variant != "flat":
+            aligned("core", 1, bounds["nested_core_layers"], variant)
+            aligned("all", 1, bounds["nested_all_layers"], variant)
+        for t in ref.TYPES:
+            if t != ref.ESD:
+                units.append(("subsets", t, variant))
+                expect += 3 * 2 ** len(ref.VARIANTS[variant]) * 2
+    return units, bounds, expect
 
 
 # ---------------------------------------------------------------------------------------------
@@ -417,7 +501,7 @@ def run(ctx: Ctx) -> None:
     old = odxtools.exceptions.strict_mode
     odxtools.exceptions.strict_mode = True
     try:
-        units, bounds = plan(ctx.quick)
+        units, bounds, expect = plan(ctx.quick)
         hs = {n: hier(n) for n in range(1, bounds["core_layers"] + 1)}
         tags = set()
         for n, hl in hs.items():
@@ -429,7 +513,12 @@ def run(ctx: Ctx) -> None:
             "placement_vectors_per_layer_count": {str(n): sum(ref.n_placements(h[0], 2, n > FULL_LAYERS) for h in hl) for n, hl in hs.items()},
             "allowed_parent_types": {k: list(v) for k, v in ref.ALLOWED_PARENTS.items()},
             "placements_per_layer": [ref.KIND_NAME[k] for k in ref.KINDS],
-            "instance_modes": ["value / all sub-values given", "value omitted / one sub-value omitted (rotating index)"],
+            "instance_modes": ["value / all sub-values given", "value omitted / one sub-value omitted (rotating index)",
+                               "stack passes: each of the two additionally with a PROT-STACK-SNREF (alone on generic instances, "
+                               "together with PROTOCOL-SNREF on protocol-specific ones): 29 placements per layer"],
+            "complex_specifications": {k: [n if isinstance(d, str) else {n: [x for x, _ in d]} for n, d in v] for k, v in ref.VARIANTS.items()},
+            "can_fd": "given CP_CANFDTxMaxDataLength values alternate between 'CANFD TX_DL=n' and 'CAN TX_DL=n' with layer and "
+                      "qualifier (default: CANFD); uses_can / uses_can_fd / get_can_fd_baudrate are judged per protocol query",
             "document_orders": "hierarchies of <= 3 layers: generic before protocol-specific and the reverse for every vector with a "
                                "generic+P1 pair, PARENT-REFs as listed and reversed if a layer has several parents; 4 layers: generic "
                                "first, PARENT-REFs as listed, and the two instances of a generic+P1 pair are both given or both omitted "
@@ -452,41 +541,43 @@ def run(ctx: Ctx) -> None:
             "functional group + unrelated protocol) -- any of the offered instances is accepted",
             "DON'T-CARE: get_comparam(name, P) when the generic instance is defined in a strictly closer layer than the P-specific one "
             "(either is accepted); get_comparam(name, None) with several instances of that name (any of them is accepted)",
-            "DON'T-CARE: get_max_can_payload_size() when CP_CANFDTxMaxDataLength is not defined (8 / None is a convention); "
-            "get_can_fd_baudrate() unless CP_UniqueRespIdTable and CP_CANFDTxMaxDataLength resolve too; only the value syntax "
-            "'CANFD TX_DL=<n>' is generated",
+            "DON'T-CARE: get_max_can_payload_size() when CP_CANFDTxMaxDataLength is not defined (8 / None is a convention); only "
+            "the value syntaxes 'CANFD TX_DL=<n>' and 'CAN TX_DL=<n>' are generated",
+            "CAN-FD gate: a protocol uses CAN iff CP_UniqueRespIdTable resolves for it, CAN-FD iff additionally "
+            "CP_CANFDTxMaxDataLength resolves for it and its effective value contains CANFD; get_can_fd_baudrate(protocol) is the "
+            "number of CP_CANFDBaudrate resolved for that protocol if CAN-FD is in use, else None",
             "lookups and accessors are judged on the view / instance the real code produced (the view itself is judged against the "
             "reference), so one root cause yields one finding key",
-            "COMPLEX-PHYSICAL-DEFAULT-VALUE, nested complex parameters, ALLOW-MULTIPLE-VALUES lists and PROT-STACK-SNREF "
-            "qualifiers are not generated",
+            "PROT-STACK-SNREF is not part of the (parameter, protocol) key: an instance with both qualifiers is the protocol-specific "
+            "instance; two instances of one layer never differ in the PROT-STACK-SNREF only",
+            "the nested sub-parameter itself is not read through get_subvalue (it has no string value); only its simple siblings are",
+            "COMPLEX-PHYSICAL-DEFAULT-VALUE and ALLOW-MULTIPLE-VALUES lists are not generated",
         ]
         pmap(ctx, unit, units)
         c = ctx.counts
         ctx.sample(case_of((ref.PROT, ref.BV), ((), (0,)), ref.make_instances([((None, 0),), (("P1", 1),)], ref.CORE), ref.CORE))
         kinds = ctx.sets.get("placement_kinds", set())
-        ctx.guard("all 11 per-layer placements (kind x given/omitted) were used", len(kinds) == len(ref.layer_placements(2)))
+        ctx.guard("all 29 per-layer placements (kind x given/omitted x with/without PROT-STACK-SNREF) were used",
+                  len(kinds) == len(ref.layer_placements(4)))
+        ctx.guard("instances with both PROTOCOL-SNREF and PROT-STACK-SNREF were loaded and seen in views",
+                  c.get("view_entries_with_both_qualifiers", 0) > 0 and
+                  c.get("view_entries_with_prot_stack_qualifier", 0) > c.get("view_entries_with_both_qualifiers", 0))
+        ctx.guard("protocol queries answered by CAN-FD and by classic-CAN frame-size definitions both occurred",
+                  c.get("can_fd_gate_fd", 0) > 0 and c.get("can_fd_gate_classic", 0) > 0)
+        ctx.guard("sub-values were read through specifications with a nested COMPLEX-COMPARAM",
+                  c.get("subvalue_reads_on_nested_specification", 0) > 0)
         ctx.guard("chains >= 3, diamonds, equal-priority and unrelated parents, shared-data parents all occur",
                   {"chain>=3", "diamond", "equal-priority-parents", "unrelated-mixed-parents", "shared-data-parent"} <= tags)
         ctx.guard("placement vectors enumerated == declared bound",
-                  c.get("placement_vectors", 0) == expected_vectors(bounds))
+                  c.get("placement_vectors", 0) == expect)
         ctx.guard("views with inherited entries and views overriding an ancestor's instance were seen",
                   c.get("views_with_inherited_entries", 0) > 0 and c.get("views_with_overridden_ancestor_instances", 0) > 0)
         ctx.guard("both MUST and DON'T-CARE lookups occurred", c.get("lookups_dontcare", 0) > 0 and c.get("lookups", 0) > c.get("lookups_dontcare", 0))
         ctx.guard("typed accessors were compared with numbers", c.get("accessor_calls", 0) > 1000)
-        ctx.guard("every subset of omitted sub-values was generated", len(ctx.sets.get("omitted_subvalue_sets", ())) == 8)
+        ctx.guard("every subset of omitted sub-values was generated for every specification variant",
+                  len(ctx.sets.get("omitted_subvalue_sets", ())) == sum(2 ** len(v) for v in ref.VARIANTS.values()))
     finally:
         odxtools.exceptions.strict_mode = old
-
-
-def expected_vectors(bounds: Dict[str, Any]) -> int:
-    n = 0
-    for name in ("core", "all"):
-        for k in range(1, bounds[name + "_layers"] + 1):
-            n += sum(ref.n_placements(h[0], 2, k > FULL_LAYERS) for h in hier(k))
-    for k in range(1, bounds["cross_layers"] + 1):
-        n += sum(ref.n_placements(h[0]) ** 2 for h in hier(k))
-    n += 4 * 3 * 8 * 2
-    return n
 
 
 def replay(case: Any) -> List[Tuple[str, str]]:
@@ -498,6 +589,7 @@ def replay(case: Any) -> List[Tuple[str, str]]:
             db = ec.load_batch([case])
         except Exception as e:  # noqa: BLE001
             return [(f"C15/load/raises-{type(e).__name__}", f"loading the database: {type(e).__name__}: {e}")]
-        return check_hierarchy(db, "h0_", case["types"], [tuple(p) for p in case["parents"]], case["local"], case["params"])
+        return check_hierarchy(db, "h0_", case["types"], [tuple(p) for p in case["parents"]], case["local"], case["params"],
+                               None, case.get("variant", "flat"))
     finally:
         odxtools.exceptions.strict_mode = old
